@@ -398,6 +398,7 @@ func (p *Prog) verifyFunc(fn *ssa.Function) (u *Unit) {
 		u.nreturns++
 		u.npaths++
 		u.retPCs = append(u.retPCs, append([]string{}, s2.pc...))
+		u.retPos = append(u.retPos, pos)
 		if u.fc == nil {
 			return
 		}
